@@ -104,8 +104,9 @@ def run(c):
               "panic/normal), per program by its bytecode, per history by its sequence of unit kinds; engine level: "
               "(rule group, probe site) pairs of the dsl/types differential, distinct per pair name with both verdicts seen")
     c.trusted += [
-        "go2coq quasigo / quasigoenv (read opcodes.gen.go, isUncondJump, bindLabel, eval's call cases, native bodies and dsl declarations, "
-        "the bodies of Env.addFunc/RemoveFunc and the shape of the other Env accessors and of irLoader.compileFilterFuncs syntactically)",
+        "go2coq quasigo / quasigoenv / quasigoconst (read opcodes.gen.go, isUncondJump, bindLabel, eval's call cases, native bodies and dsl declarations, "
+        "the bodies of Env.addFunc/RemoveFunc and the shape of the other Env accessors and of irLoader.compileFilterFuncs, the statements of "
+        "internConstant/internIntConstant/compileConstantValue and the writers of the pool fields syntactically)",
         "harness/cmd/c04 (generator, serialiser of go/ast + go/types facts into Coq terms, native call tracer) and the quasigo verif hooks",
         "the Go toolchain (go build) as the oracle for the source semantics; Go's strings/strconv/fmt as oracles for the natives (Section variables of the theorems, observed call tables in the correspondence)",
         "harness/cmd/c04dsl (engine-level differential for the dsl/types natives) and go/types",
@@ -118,7 +119,7 @@ def run(c):
     c.require_theories("Base/*.v", "Quasigo/*.v")
 
     # ---- P: regenerate tables, re-prove obligations over them
-    c.go2coq_sources = ["quasigo.go", "quasigoenv.go"]
+    c.go2coq_sources = ["quasigo.go", "quasigoenv.go", "quasigoconst.go"]
     gen_ok = False
     if c.go2coq("quasigo", "Gen_Quasigo.v"):
         gen_ok = c.coq_compile(["Gen_Quasigo.v"])
@@ -129,10 +130,19 @@ def run(c):
             # obligations that do not feed the correspondence (a break here must not switch K off)
             c.install_tmpl("C04/Inst_DslNatives.v")
             c.coq_compile(["Inst_DslNatives.v"], timeout=300)
+            # the bodies of the natives beyond their stack discipline: stdlib wrappers are transparent, dsl natives write
+            # nothing but their declared outputs and hand out no address of reused storage
+            c.install_tmpl("C04/Inst_NativeBodies.v")
+            c.coq_compile(["Inst_NativeBodies.v"], timeout=300)
     # the environment: addFunc / RemoveFunc bodies, accessors, the loader's protocol
     if c.go2coq("quasigoenv", "Gen_QuasigoEnv.v") and c.coq_compile(["Gen_QuasigoEnv.v"]):
         c.install_tmpl("C04/Inst_Env.v")
         c.coq_compile(["Inst_Env.v"], timeout=300)
+
+    # the constant pools: internConstant / internIntConstant / compileConstantValue as statement lists
+    if c.go2coq("quasigoconst", "Gen_QuasigoConst.v") and c.coq_compile(["Gen_QuasigoConst.v"]):
+        c.install_tmpl("C04/Inst_ConstPool.v")
+        c.coq_compile(["Inst_ConstPool.v"], timeout=300)
 
     hb = c.build_harness("c04")
     if hb is None:
